@@ -559,8 +559,19 @@ class SimplifiedRegexMatcher(RegexMatcher):
     def __init__(self, func, pattern, step_type=None):
         assert not (pattern.startswith("^") or pattern.endswith("$")), \
             "Regular expression should not use begin/end-markers: "+ pattern
-        expression = r"^%s$" % pattern
-        super(SimplifiedRegexMatcher, self).__init__(func, expression, step_type)
+        # -- NOTE: Keep the pattern as written by the user (step identity).
+        # The begin/end-markers are only added to the compiled regex.
+        super(SimplifiedRegexMatcher, self).__init__(func, pattern, step_type)
+
+    @property
+    def regex(self):
+        if self._regex is None:
+            self._regex = re.compile(r"^%s$" % self.pattern, re.UNICODE)
+        return self._regex
+
+    @regex.setter
+    def regex(self, value):
+        self._regex = value
 
 
 class CucumberRegexMatcher(RegexMatcher):
